@@ -772,6 +772,7 @@ class Client(ClientLike):
 
             header.recv_time = time.perf_counter()
         except ConnectionError:
+            self._connected = False
             raise ConnectionLost
 
         # Read Data Section
@@ -811,6 +812,7 @@ class Client(ClientLike):
                     self._connected = False
                     raise ConnectionLost
             except ConnectionError:
+                self._connected = False
                 raise ConnectionLost
 
         return Message(header, data)
